@@ -43,10 +43,14 @@ Definition fh_ok_b (r : frow) : bool :=
   | FMissing | FPlanned | FVolatile => negb (is_some (fh r))
   | FUndeclared | FUnconfirmed => true
   end.
-Definition sw_ok_b (r : srow) : bool :=
-  (negb (sdef r) || sstate_eqb (sst r) SPending) && ((shold r =? 0) || sstate_eqb (sst r) SRunning).
-
 Definition FHl (fs : list frow) : Prop := forall r, In r fs -> fh_ok_b r = true.
+
+(* hh = true: the full invariant; hh = false: without the clause "holding > 0 -> RUNNING" *)
+Section HH.
+Context {hh : bool}.
+Definition sw_ok_b (r : srow) : bool :=
+  (negb (sdef r) || sstate_eqb (sst r) SPending) &&
+  (negb hh || ((shold r =? 0) || sstate_eqb (sst r) SRunning)).
 Definition SWl (ss : list srow) : Prop := forall r, In r ss -> sw_ok_b r = true.
 
 Record Inv (s : st) : Prop := {
@@ -57,6 +61,10 @@ Record Inv (s : st) : Prop := {
   inv_ud : UDl (nodes s) (files s);
   inv_fh : FHl (files s);
   inv_sw : SWl (steps s) }.
+End HH.
+Arguments sw_ok_b : clear implicits.
+Arguments SWl : clear implicits.
+Arguments Inv : clear implicits.
 
 (* ------------------------------------------------------------------------------------------ *)
 (* lookups in the row tables                                                                   *)
@@ -230,11 +238,13 @@ Qed.
 
 Lemma FH_reflect s : inv_fhash_b s = true <-> FHl (files s).
 Proof. unfold inv_fhash_b, FHl. rewrite forallb_forall. reflexivity. Qed.
-Lemma SW_reflect s : inv_step_b s = true <-> SWl (steps s).
+Lemma SW_reflect s : inv_step_b s = true <-> SWl true (steps s).
 Proof. unfold inv_step_b, SWl. rewrite forallb_forall. reflexivity. Qed.
+Lemma SW_reflect_core s : inv_deferred_b s = true <-> SWl false (steps s).
+Proof. unfold inv_deferred_b, SWl. rewrite forallb_forall. reflexivity. Qed.
 
 (* I3 follows from I3' and I1 *)
-Lemma undeclared_from_inv s : Inv s -> inv_undeclared_b s = true.
+Lemma undeclared_from_inv hh s : Inv hh s -> inv_undeclared_b s = true.
 Proof.
   intros HI. unfold inv_undeclared_b. apply forallb_forall. intros r Hr.
   destruct (fstate_eqb (fstt r) FUndeclared) eqn:E; [|reflexivity]. apply fstate_eqb_eq in E. cbn.
@@ -247,7 +257,7 @@ Proof.
   unfold local_ok in Hl. rewrite Hc in Hl. exact Hl.
 Qed.
 
-Theorem inv_b_iff s : inv_b s = true <-> Inv s.
+Theorem inv_b_iff s : inv_b s = true <-> Inv true s.
 Proof.
   unfold inv_b. split.
   - intros H. rewrite !andb_true_iff in H.
@@ -263,8 +273,38 @@ Proof.
   - intros HI. pose proof (proj2 (NW_reflect s) (inv_nw _ HI)) as HN.
     rewrite !andb_true_iff in HN. destruct HN as [[H1 H2] H3].
     rewrite H1, H2, H3, (proj2 (RW_reflect s) (inv_rw _ HI)), (proj2 (DW_reflect s) (inv_dw _ HI)),
-            (proj2 (AC_reflect s) (inv_ac _ HI)), (undeclared_from_inv s HI),
+            (proj2 (AC_reflect s) (inv_ac _ HI)), (undeclared_from_inv true s HI),
             (proj2 (FH_reflect s) (inv_fh _ HI)), (proj2 (SW_reflect s) (inv_sw _ HI)),
             (proj2 (UD_reflect s) (inv_ud _ HI)).
     reflexivity.
+Qed.
+
+Theorem inv_core_b_iff s : inv_core_b s = true <-> Inv false s.
+Proof.
+  unfold inv_core_b. split.
+  - intros H. rewrite !andb_true_iff in H.
+    destruct H as [[[[[[[[[H1 H2] H3] H4] H5] H6] H7] H8] H9] H10].
+    constructor.
+    + apply NW_reflect. rewrite H1, H2, H3. reflexivity.
+    + apply RW_reflect. exact H4.
+    + apply DW_reflect. exact H5.
+    + apply AC_reflect. exact H6.
+    + apply UD_reflect. exact H10.
+    + apply FH_reflect. exact H8.
+    + apply SW_reflect_core. exact H9.
+  - intros HI. pose proof (proj2 (NW_reflect s) (inv_nw _ HI)) as HN.
+    rewrite !andb_true_iff in HN. destruct HN as [[H1 H2] H3].
+    rewrite H1, H2, H3, (proj2 (RW_reflect s) (inv_rw _ HI)), (proj2 (DW_reflect s) (inv_dw _ HI)),
+            (proj2 (AC_reflect s) (inv_ac _ HI)), (undeclared_from_inv false s HI),
+            (proj2 (FH_reflect s) (inv_fh _ HI)), (proj2 (SW_reflect_core s) (inv_sw _ HI)),
+            (proj2 (UD_reflect s) (inv_ud _ HI)).
+    reflexivity.
+Qed.
+
+(* the full invariant implies the core invariant *)
+Lemma Inv_true_false s : Inv true s -> Inv false s.
+Proof.
+  intros [I1 I2 I3 I4 I5 I6 I7]. constructor; try assumption.
+  intros r Hr. specialize (I7 r Hr). unfold sw_ok_b in *. apply andb_true_iff in I7. destruct I7 as [I7 _].
+  rewrite I7. reflexivity.
 Qed.
